@@ -38,17 +38,18 @@ def write_if_changed(path, content):
     return True
 
 # ------------------------------------------------------------------ Go side
-def build_go(log):
-    """Build harness + Tier-A tools from /repo's current working tree (hooks on)."""
+def build_go(log, bins=()):
+    """Build harness binaries + Tier-A tools from /repo's current working tree (hooks on)."""
     with Lock("go"):
-        os.makedirs(BUILD, exist_ok=True)
+        os.makedirs(os.path.join(BUILD, "bin"), exist_ok=True)
         hd = os.path.join(VERIF, "harness")
         shutil.copyfile(os.path.join(REPO, "go.sum"), os.path.join(hd, "go.sum"))
-        rc, out = sh(["go", "build", "-tags", "verif", "-o", os.path.join(BUILD, "zharness"), "."],
-                     cwd=hd, env=GOENV, timeout=1500)
-        log.append("go build harness rc=%d\n%s" % (rc, out[-4000:]))
-        if rc != 0:
-            return False, out
+        for b in ["constdump"] + list(bins):
+            rc, out = sh(["go", "build", "-tags", "verif", "-o", os.path.join(BUILD, "bin", b), "./cmd/" + b],
+                         cwd=hd, env=GOENV, timeout=1500)
+            log.append("go build %s rc=%d\n%s" % (b, rc, out[-4000:]))
+            if rc != 0:
+                return False, out
         gd = os.path.join(VERIF, "go2coq")
         if os.path.isdir(gd):
             rc, out = sh(["go", "build", "-o", os.path.join(BUILD, "go2coq"), "."], cwd=gd, env=GOENV, timeout=600)
@@ -61,7 +62,7 @@ def regen(log):
     """Tier A: regenerate coq/gen/*.v from /repo (constants by execution, pure functions by translation)."""
     problems = []
     with Lock("coq"):
-        zh = os.path.join(BUILD, "zharness")
+        zh = os.path.join(BUILD, "bin", "constdump")
         rc, out = sh([zh, "constdump", "-out", os.path.join(BUILD, "Consts.v")], timeout=300)
         if rc != 0:
             problems.append("constdump failed: " + out[-2000:])
@@ -87,9 +88,22 @@ def coq_flags():
             fl += [p[0], os.path.join(COQ, p[1]), p[2]]
     return fl + ["-w", "-notation-overridden,-deprecated-hint-without-locality,-deprecated"]
 
+def gen_coqproject():
+    lines = ["-Q theories ZV", "-Q gen ZV.gen", "-Q Props ZV.Props",
+             "-arg -w -arg -notation-overridden,-deprecated-hint-without-locality,-deprecated"]
+    for d in ("gen", "theories", "Props"):
+        for f in sorted(glob.glob(os.path.join(COQ, d, "*.v"))):
+            lines.append("%s/%s" % (d, os.path.basename(f)))
+    if write_if_changed(os.path.join(COQ, "_CoqProject"), "\n".join(lines) + "\n"):
+        try:
+            os.remove(os.path.join(COQ, "Makefile"))
+        except OSError:
+            pass
+
 def make_targets(targets, log, clean=False):
     """Full .vo build of the given targets (and their dependencies). Returns (ok, output)."""
     with Lock("coq"):
+        gen_coqproject()
         if not os.path.exists(os.path.join(COQ, "Makefile")) or \
            os.path.getmtime(os.path.join(COQ, "Makefile")) < os.path.getmtime(os.path.join(COQ, "_CoqProject")):
             sh("coq_makefile -f _CoqProject -o Makefile", cwd=COQ)
@@ -224,7 +238,7 @@ def run_check(pid, cfg, tier, seed, replay=None):
     known_hit = []
     notes = []
 
-    ok, out = build_go(log)
+    ok, out = build_go(log, sorted(set(su["bin"] for su in cfg["suites"])))
     if not ok:
         # /repo or harness does not compile: nothing can be said; report as infrastructure error
         print("ERROR: go build failed\n" + out[-3000:])
@@ -275,9 +289,9 @@ def run_check(pid, cfg, tier, seed, replay=None):
         n = suite["n"][tier]
         outp = os.path.join(workdir, "%s_%d.jsonl" % (suite["name"], si))
         if replay:
-            cmd = [os.path.join(BUILD, "zharness"), suite["name"], "-seed", str(replay["seed"]), "-n", str(n), "-out", outp]
+            cmd = [os.path.join(BUILD, "bin", suite["bin"]), suite["name"], "-seed", str(replay["seed"] + si), "-n", str(n), "-out", outp]
         else:
-            cmd = [os.path.join(BUILD, "zharness"), suite["name"], "-seed", str(seed + si), "-n", str(n), "-out", outp]
+            cmd = [os.path.join(BUILD, "bin", suite["bin"]), suite["name"], "-seed", str(seed + si), "-n", str(n), "-out", outp]
         cmd += suite.get("args", [])
         try:
             rc, out = sh(cmd, cwd=workdir, timeout=suite.get("timeout", 3000), env=GOENV)
